@@ -16,7 +16,10 @@ run missed, the re-run after the specification was extended). `check_output.txt`
 None of these changes is ever applied to /repo; to run the checks against one:
 `tools/mutant_run.sh seeded/<id>/patch.diff Cxx` (scratch worktree + scratch copy of /verif under /tmp, removed afterwards).
 
-All 20 changes build, keep the 491 repository tests green, and fail their demonstration only with the change applied.
+Two rounds of 20 changes each (round 2: the sub-agents were asked for changes off the beaten path; `result.json` has `"round": 2`).
+All 40 build, keep the 491 repository tests green, and fail their demonstration only with the change applied. A first-run cell
+that starts with NOT BLIND means that the specification had been extended from the change's one-line summary before the checks
+were first run against it.
 
 | change | breaks | needs to manifest | first run of the checks | after strengthening |
 |---|---|---|---|---|
